@@ -8,9 +8,7 @@ namespace Model
 
 /-- the relabelling constants of `compute` fall inside the excluded year ranges -/
 def reformConstsOk : Bool :=
-  reformConsts.length == 8 &&
-  listGetD reformConsts 4 == rcB && listGetD reformConsts 5 == rcD &&
-  listGetD reformConsts 6 == rcB && listGetD reformConsts 7 == rcD &&
+  reformConsts.length == 4 && decide (rcA < rcB) && decide (rcB < rcC) && decide (rcC < rcD) &&
   isReformYear (fromJdn rcA).1 && isReformYear (fromJdn rcB).1 &&
   isReformYear (fromJdn rcC).1 && isReformYear (fromJdn rcD).1
 
